@@ -36,18 +36,26 @@ def run(repo):
     res.floor = 12
     fi = repo.func('lp.Model.do_math')
     res.functions.add(fi.fq)
+    from .common import expand_locals, single_defs
+    xdefs = single_defs(fi.node)
+    # the primal program: the LinProg(..) whose vtype argument is a local that is filled from the variables
     ctor = None
+    vname = None
     for n in walk_no_nested(fi.node):
         if isinstance(n, ast.Call) and ntext(n.func) == 'LinProg':
             env = bind_args(repo.func('lp.LinProg.__init__'), n)
-            if isinstance(env.get('vtype'), ast.Name) and env['vtype'].id == 'vtype':
-                ctor = n
+            v = env.get('vtype') if env else None
+            if isinstance(v, ast.Name) and any(
+                    isinstance(a, ast.Assign) and any(isinstance(t, ast.Name) and t.id == v.id for t in a.targets)
+                    and ('self.vars' in ntext(a.value) or 'self.last' in ntext(a.value))
+                    for a in walk_no_nested(fi.node)):
+                ctor, vname = n, v.id
     if ctor is None:
         raise AnalysisError('lp.Model.do_math: LinProg(..., vtype, ...) not found')
     defs = [n for n in walk_no_nested(fi.node) if isinstance(n, ast.Assign)
-            and any(isinstance(t, ast.Name) and t.id == 'vtype' for t in n.targets)]
+            and any(isinstance(t, ast.Name) and t.id == vname for t in n.targets)]
     stores = [n for n in walk_no_nested(fi.node) if isinstance(n, ast.Assign)
-              and isinstance(n.targets[0], ast.Subscript) and ntext(n.targets[0].value) == 'vtype']
+              and isinstance(n.targets[0], ast.Subscript) and ntext(n.targets[0].value) == vname]
     primal_defs = [d for d in defs if 'self.vars' in ntext(d.value) or 'self.last' in ntext(d.value)
                    or "'C'" in ntext(d.value)]
     if not primal_defs:
@@ -60,7 +68,8 @@ def run(repo):
         for st in stores:
             sl = st.targets[0].slice
             if isinstance(sl, ast.Slice) and sl.lower is not None and sl.upper is not None:
-                lo, hi = ntext(sl.lower), ntext(sl.upper)
+                lo = ntext(expand_locals(fi.node, sl.lower, defs=xdefs))
+                hi = ntext(expand_locals(fi.node, sl.upper, defs=xdefs))
                 if lo.endswith('.first') and lo.split('.')[0] in hi and ('.size' in hi or '.last' in hi):
                     positional = init_ok
     # the contiguity invariant is broken by the front ends (documented above): re-validate
@@ -171,6 +180,9 @@ def run(repo):
         for n in walk_no_nested(f3.node):
             if isinstance(n, ast.If) and ntext(n.test) == 'refresh':
                 blk = n
+            elif isinstance(n, ast.If) and ntext(n.test) == 'not refresh' and n.orelse:
+                blk = ast.If(test=n.test, body=n.orelse, orelse=[])
+                ast.copy_location(blk, n)
         if blk is None:
             raise AnalysisError('%s: `if refresh:` rollback block not found' % fq)
         from .common import expand_locals
@@ -178,7 +190,11 @@ def run(repo):
         for s_ in blk.body:
             if isinstance(s_, ast.Assign) and len(s_.targets) == 1 and is_self_attr(s_.targets[0], 'last'):
                 # a local alias of self.vars[-1] is the same block
-                txt.append('self.last = ' + ntext(expand_locals(f3.node, s_.value)))
+                val_ = expand_locals(f3.node, s_.value)
+                if isinstance(val_, ast.BinOp) and isinstance(val_.op, ast.Add) and ntext(val_.left).endswith('.size') \
+                        and ntext(val_.right).endswith('.first'):
+                    val_ = ast.BinOp(left=val_.right, op=ast.Add(), right=val_.left)      # a + b == b + a
+                txt.append('self.last = ' + ntext(val_))
             else:
                 txt.append(ntext(s_))
         last_assign = [t for t in txt if t.startswith('self.last =')]
